@@ -116,6 +116,40 @@ ZScoreM(tk, RE, CE) ==
   Mat(Len(RE), Len(CE), LAMBDA i, j : ZScoreD(def, tk, RE[i], CE[j]))
 
 SSqrt2(m) == [k |-> "ssqrt", nd |-> 2, v |-> m]
+
+(***************************************************************************)
+(* Huge tables (family "c12h", batches of ~100,000 respondents): the       *)
+(* square of a z-score no longer fits TLC's 32-bit integers, so only       *)
+(* WHETHER the z-score is defined and its SIGN -- sign(cT - RC) -- are     *)
+(* specified, with products compared as three base-10^4 limbs.  This is    *)
+(* the regime where a row base lies within 1e-5 of the table base without  *)
+(* being equal to it.                                                      *)
+(*   leaf: -1 / 1 sign of a defined z-score, 2 NaN, 3 left open            *)
+(***************************************************************************)
+ProdLimbs(a, b) ==   \* 0 <= a, b < 10^8
+  LET a1 == a \div 10000  a0 == a % 10000  b1 == b \div 10000  b0 == b % 10000
+      lo == a0 * b0   mid == a1 * b0 + a0 * b1 + (lo \div 10000)
+  IN  <<a1 * b1 + (mid \div 10000), mid % 10000, lo % 10000>>
+CmpProd(a, b, c, d) ==   \* sign(ab - cd)
+  LET x == ProdLimbs(a, b)  y == ProdLimbs(c, d) IN
+  IF x[1] # y[1] THEN Sign(x[1] - y[1])
+  ELSE IF x[2] # y[2] THEN Sign(x[2] - y[2]) ELSE Sign(x[3] - y[3])
+DefectiveH(tk) ==
+  LET M == [i \in 1..NBaseR |-> [j \in 1..NBaseC |-> BaseCount(tk, i, j)]] IN
+  \/ NBaseR = 0 \/ NBaseC = 0
+  \/ \A i1, i2 \in 1..NBaseR : \A j1, j2 \in 1..NBaseC :
+        CmpProd(M[i1][j1], M[i2][j2], M[i1][j2], M[i2][j1]) = 0
+ZSignD(def, tk, re, ce) ==
+  LET z == ZTerms(tk, re, ce) IN
+  IF def THEN 2
+  ELSE IF IsNaN(z.c) \/ IsNaN(z.r) \/ IsNaN(z.cc) \/ IsNaN(z.t) THEN 2
+  ELSE LET c == IntAt(z.c, WS)  r == IntAt(z.r, WS)  cc == IntAt(z.cc, WS)  t == IntAt(z.t, WS) IN
+       IF t = 0 THEN 2
+       ELSE IF c < 0 \/ r <= 0 \/ cc <= 0 \/ t - r <= 0 \/ t - cc <= 0 THEN 3
+       ELSE LET s == CmpProd(c, t, r, cc) IN IF s = 0 THEN 3 ELSE s
+ZSignM(tk, RE, CE) ==
+  LET def == DefectiveH(tk) IN
+  Mat(Len(RE), Len(CE), LAMBDA i, j : ZSignD(def, tk, RE[i], CE[j]))
 \* p = two-sided normal tail of sqrt(leaf[2]); evaluated by the replayer
 TailNormal2(m) == [k |-> "tail_normal", nd |-> 2, v |-> m]
 
